@@ -485,12 +485,14 @@ class Program:
         -> (fn path, type arguments aligned with that function's `tparams` or None) or None."""
         if trait is None or self_ty is None:
             return None
-        for im in self.facts.get('impls', []):
-            if not (im.get('trait') == trait.split('::')[-1] or im.get('trait') == trait):
-                continue
+        matching = [im for im in self.facts.get('impls', [])
+                    if (im.get('trait') == trait.split('::')[-1] or im.get('trait') == trait) and Program.unify_ty(im['self_ty'], self_ty, {})]
+        if len(matching) > 1:
+            # rustc tells such impls apart by their where-clauses, which the interpreter does not evaluate
+            raise Undecided('several impls of %s match %s structurally' % (trait, self_ty.get('path') or self_ty.get('k')))
+        for im in matching:
             binds = {}
-            if not Program.unify_ty(im['self_ty'], self_ty, binds):
-                continue
+            Program.unify_ty(im['self_ty'], self_ty, binds)
             for it in im['items']:
                 if it['name'] == method and it['is_fn'] and it['path'] in self.fns:
                     tp = self.fns[it['path']].get('tparams') or []
